@@ -31,7 +31,7 @@ impl Prop for C01P {
     }
     fn page_guard(&self, tier: Tier, profile: Profile) -> bool {
         let _ = (tier, profile);
-        profile == Profile::Wrap || tier == Tier::Thorough
+        profile == Profile::Wrap
     }
     fn rule(&self) -> String {
         "breadth-first search to fixpoint over canonical states (dims + rank-compressed cell labels) of a real TooDee<u32>; \
